@@ -157,10 +157,12 @@ class Ctx:
         print(f"[{self.pid}] tier={self.tier} seed={self.seed} evaluations={self.evaluations} "
               f"nontrivial={len(self.nontrivial)} violations={nviol} known={len(self.known_hit)} "
               f"wall={wall:.1f}s")
+        if nviol:
+            return 1
         if self.evaluations < 1 or len(self.nontrivial) < 2:
             print(f"[{self.pid}] HARNESS ERROR: vacuous run", file=sys.stderr)
             return 2
-        return 1 if nviol else 0
+        return 0
 
 
 def _size(rep):
